@@ -120,28 +120,21 @@ fn options_body(k: usize) {
 //@chunks 24 c14_default_options_contract options_body #[kani::proof] #[kani::unwind(30)] #[kani::stub(crate::util::unix_timestamp, stub_ts)] #[kani::stub(std::str::from_utf8, stub_from_utf8)]
 
 /// concrete probes of the same contract: tokens that are NOT a registered method but share text with the advertised list (substrings, the
-/// separator, case variants, padded names) must all be refused with 400 -- cheap even when the code under contract becomes expensive for CBMC
-#[kani::proof]
-#[kani::unwind(30)]
-#[kani::stub(crate::util::unix_timestamp, stub_ts)]
-#[kani::stub(std::str::from_utf8, stub_from_utf8)]
-fn c14_default_options_concrete_tokens() {
+/// separator, case variants, padded names) must all be refused with 400; one token per harness
+fn options_concrete_body(k: usize) {
     const BAD: [&[u8]; 12] = [b"PAT", b"PATC", b"EAD", b"GE", b"T", b",", b", ", b"GET,", b"GET, PATCH", b"get", b" GET", b"OPTION"];
     const GOOD: [&[u8]; 4] = [b"GET", b"PATCH", b"HEAD", b"OPTIONS"];
     let handler = Handler::default_options_with(vec!["GET", "PATCH"]);
-    let mut i = 0;
-    while i < 16 {
-        let tok: &'static [u8] = if i < 12 { BAD[i] } else { GOOD[i - 12] };
-        let mut req = Request::init(std::net::IpAddr::V4(std::net::Ipv4Addr::new(127, 0, 0, 1)));
-        req.method = Method::OPTIONS;
-        req.headers.append(RequestHeader::AccessControlRequestMethod, CowSlice::Ref(Slice::from_bytes(tok)));
-        let res = block_on(handler.proc.call_bite(&mut req));
-        if i < 12 { assert!(res.status == Status::BadRequest, "default OPTIONS: a token that is not exactly a registered method is refused with 400"); }
-        else { assert!(res.status == Status::NotImplemented, "default OPTIONS: a registered method is the valid-preflight marker"); }
-        std::mem::forget(res); std::mem::forget(req);
-        i += 1;
-    }
+    let tok: &'static [u8] = if k < 12 { BAD[k] } else { GOOD[k - 12] };
+    let mut req = Request::init(std::net::IpAddr::V4(std::net::Ipv4Addr::new(127, 0, 0, 1)));
+    req.method = Method::OPTIONS;
+    req.headers.append(RequestHeader::AccessControlRequestMethod, CowSlice::Ref(Slice::from_bytes(tok)));
+    let res = block_on(handler.proc.call_bite(&mut req));
+    if k < 12 { assert!(res.status == Status::BadRequest, "default OPTIONS: a token that is not exactly a registered method is refused with 400"); }
+    else { assert!(res.status == Status::NotImplemented, "default OPTIONS: a registered method is the valid-preflight marker"); }
+    std::mem::forget(res); std::mem::forget(req);
 }
+//@chunks 16 c14_default_options_concrete options_concrete_body #[kani::proof] #[kani::unwind(30)] #[kani::stub(crate::util::unix_timestamp, stub_ts)] #[kani::stub(std::str::from_utf8, stub_from_utf8)]
 
 /// CORS::AllowCredentials on a wildcard origin is refused by the builder (so `credentials => non-wildcard` holds for every configuration)
 #[kani::proof]
